@@ -7,6 +7,7 @@
    interleavings of LogTraffic, LogOnlineState, GET /traffic (with and without clear),
    POST /kick and GET /online".  No bound on lengths, ids or byte counts. *)
 From Hy Require Import lib.Lin model.C15_Stats proof.C15_Stats model.C15_Sites proof.C15_Sites.
+From Hy Require Import model.C15_FromC01 proof.C15_FromC01.
 From Coq Require Import ZArith Permutation.
 Local Open Scope N_scope.
 
@@ -295,3 +296,51 @@ Theorem C15_unannounced_return_refuted : forall secret,
   nopen 0%N (conns w2) = 1%Z /\ get 0%N (online (logger w2)) = None.
 Proof. exact unannounced_return_refuted. Qed.
 Print Assumptions C15_unannounced_return_refuted.
+
+(* ---------- composition with C01: the `paired` hypothesis of C15_online_exact discharged from C01's server model ----------
+   model/C15_FromC01.v: A = model/C01_ServerAuth.v (the server as a labelled transition system over the atomic sections
+   of ServeHTTP / handleClient, any number of connections), S = model/C15_Stats.v (this object).  online_ops enc tr = the
+   LogOnlineState calls in the trace tr of a run of A, as operations of S, user ids numbered by enc (any function). *)
+
+(* For every run of C01's server model from its initial state (any interleaving of any connections' requests, verdicts,
+   streams, datagrams, closes): the LogOnlineState calls it emits satisfy `paired` for every user (no prefix has more
+   offline than online calls), #online - #offline is the number of connections authenticated as that user whose
+   handleClient has not run its tail, and there are at most as many online calls as actions (the 2^63 side condition
+   of C15_online_exact holds for every run shorter than 2^63 actions). *)
+Theorem C15_paired_from_C01_run : forall enc cfg masq acts s tr i,
+  A.run cfg masq A.init acts = Some (s, tr) ->
+  paired i (online_ops enc tr) /\
+  balance i (online_ops enc tr) = nlive enc s i (conns_of acts) /\
+  (ups i (online_ops enc tr) <= Z.of_nat (List.length acts))%Z.
+Proof. exact online_from_c01_run. Qed.
+Print Assumptions C15_paired_from_C01_run.
+
+(* Hence, with no pairing hypothesis left: after ANY run of the server model, a stats object that has performed exactly the
+   run's LogOnlineState calls - interleaved in any way with any other operations (LogTraffic reports, GET /traffic,
+   POST /kick, GET /online) - answers GET /online, for every id string, with exactly the number of connections that are
+   authenticated with that id and not yet closed (handleClient's tail not run), and lists no entry at zero.
+   enc = the numbering of id strings, any injective function. *)
+Theorem C15_online_listing_after_C01_run : forall enc cfg masq acts s tr ops st rs id,
+  (forall a b, enc a = enc b -> a = b) ->
+  A.run cfg masq A.init acts = Some (s, tr) ->
+  only_online ops = online_ops enc tr ->
+  run init_state ops = (st, rs) ->
+  (Z.of_nat (List.length acts) < P63)%Z ->
+  let c := nauth s id (conns_of acts) in
+  step st OGetOnline = (st, ROnline (online st)) /\
+  get (enc id) (online st) = (if (c =? 0)%Z then None else Some c).
+Proof. exact listing_counts_authenticated. Qed.
+Print Assumptions C15_online_listing_after_C01_run.
+
+(* The same for an arbitrary (not necessarily injective) numbering: users whose id strings are numbered alike are
+   counted together. *)
+Theorem C15_online_listing_after_C01_run_any_numbering : forall enc cfg masq acts s tr ops st rs i,
+  A.run cfg masq A.init acts = Some (s, tr) ->
+  only_online ops = online_ops enc tr ->
+  run init_state ops = (st, rs) ->
+  (Z.of_nat (List.length acts) < P63)%Z ->
+  let c := nlive enc s i (conns_of acts) in
+  get i (online st) = (if (c =? 0)%Z then None else Some c) /\
+  step st OGetOnline = (st, ROnline (online st)).
+Proof. exact listing_from_c01_run. Qed.
+Print Assumptions C15_online_listing_after_C01_run_any_numbering.
